@@ -100,6 +100,7 @@ def _pick(ctx, rep):
     """Choice of the policy file: the complete table."""
     hows = ['default', 'set_default_yaml', 'set_default_other', 'config_yaml', 'config_other', 'override_yaml', 'override_other']
     n = 0
+    picks = []
     saved_default = [o for o in opts._options if o.name == 'policy_file'][0].default
     try:
         for how, exist_bits, fallback, ctor in itertools.product(hows, range(8), (True, False), (None, 'ctor.yaml')):
@@ -142,11 +143,10 @@ def _pick(ctx, rep):
                     rep.fail(key, 'policy file chosen: %r, expected %r (option set via %s to %r, existing files %r, fallback=%s, '
                              'constructor argument %r)' % (got, want, how, value, [k for k, v in exists.items() if v], fallback, ctor),
                              {'how': how, 'exists': exists, 'fallback': fallback, 'ctor': ctor})
-                m = driver.call([{'op': 'pick_file', 'value': value, 'never_configured': never_configured,
-                                  'yaml_exists': exists['policy.yaml'], 'json_exists': exists['policy.json'],
-                                  'fallback': fallback, 'ctor': ctor}])[0]['file']
-                if m != got:
-                    rep.disagree('pick-file', {'how': how, 'exists': exists, 'fallback': fallback, 'ctor': ctor}, m, got)
+                picks.append(({'op': 'pick_file', 'value': value, 'never_configured': never_configured,
+                               'yaml_exists': exists['policy.yaml'], 'json_exists': exists['policy.json'],
+                               'fallback': fallback, 'ctor': ctor},
+                              {'how': how, 'exists': exists, 'fallback': fallback, 'ctor': ctor}, got))
                 rep.stat('pick:' + want)
                 rep.case(key=key, nontrivial=True)
                 n += 1
@@ -154,6 +154,9 @@ def _pick(ctx, rep):
                 shutil.rmtree(tmp, ignore_errors=True)
     finally:
         cfg.set_defaults(opts._options, policy_file=saved_default)
+    for (rq, case, got), ans in zip(picks, driver.call([p[0] for p in picks])):
+        if ans['file'] != got:
+            rep.disagree('pick-file', case, ans['file'], got)
     rep.rules.append('the complete policy-file choice table: %d rows (option left at default / library default changed / config '
                      'file / override, to policy.yaml or another name) x which of policy.yaml, policy.json, other.yaml exist x '
                      'fallback switch x constructor argument' % n)
